@@ -8,7 +8,7 @@ from gev import core, grammars, refmodel, stream, workload
 
 PROPERTY = "C09"
 LEVEL = "exploration"
-TECHNIQUE = "runtime monitor: deep structural snapshots (program structure, genes, per-node gengy_* metadata and synthesis context, fitness_store, cached phenotype, population order) of every argument before each public operator / step call, compared after the call, after the result was consumed and evaluated, and again at the end of the history"
+TECHNIQUE = "runtime monitor: deep structural snapshots (program structure, genes, per-node gengy_* metadata and synthesis context, fitness_store, cached phenotype, population order) of every argument before each public operator / step call, compared after the call, after the result was consumed and evaluated, and again at the end of the history; dynamic-SGE sessions in which operators meet never-mapped genotypes (only a mapping may extend a genotype, prefix-preserving); NaN-safe fitness snapshots"
 RULE = (
     "op cases = (generated grammar, representation, decider, seed, sequence of create/map/mutate/crossover); step cases = (grammar, representation, "
     "random nesting of the built-in steps incl. elitism/novelty/tournament/lexicase/mutation/crossover/sequence/parallel/exclusive-parallel, population, "
